@@ -154,7 +154,7 @@ class StagedView(Oracle):
         toks = st["h"].split(" ")
         if ok(resp) and st["op"] in ("rm", "resetp") and toks[2] == "0":
             lits = [unhx(t).decode() for t in toks[3:]]
-            lits = [l.strip("/") for l in lits if not re.search(r"[*?\[\]{}\\]", l) and l.strip("/")]
+            lits = [l.strip("/") for l in lits if not re.search(r"[*?\[\]{}\\]", l) and l.strip("/") and not l.endswith("/")]
             if st["op"] == "rm":
                 for l in lits:
                     if l in pset:
